@@ -75,11 +75,24 @@ const WaitOptionalTag = "!wait-optional"
 // should be optional with an optional DAG dependency.
 const SoftOptionalTag = "!soft-optional"
 
+// compileExpression compiles an expression. The expression parser panics on some malformed input, for example
+// an expression that ends in a binary operator; a malformed expression in a workflow file must be reported as
+// an error like any other syntax error.
+func compileExpression(expression string) (expr expressions.Expression, err error) {
+	defer func() {
+		if r := recover(); r != nil {
+			expr = nil
+			err = fmt.Errorf("malformed expression %q (%v)", expression, r)
+		}
+	}()
+	return expressions.New(expression)
+}
+
 func buildExpression(data yaml.Node, path []string) (expressions.Expression, error) {
 	if data.Type() != yaml.TypeIDString {
 		return nil, fmt.Errorf("%s found on non-string node at %s", data.Tag(), strings.Join(path, " -> "))
 	}
-	expr, err := expressions.New(data.Value())
+	expr, err := compileExpression(data.Value())
 	if err != nil {
 		return nil, fmt.Errorf("failed to compile expression at %s (%w)", strings.Join(path, " -> "), err)
 	}
@@ -149,7 +162,7 @@ func buildResultOrDisabledExpression(data yaml.Node, path []string) (*infer.OneO
 	// Index 0 is the entire capture, index 1 is the step path, and index 2 is the present case
 	stepPath := capturedParts[1]
 	disabledPath := stepPath + ".disabled.output"
-	disabledExpr, err := expressions.New(disabledPath)
+	disabledExpr, err := compileExpression(disabledPath)
 	if err != nil {
 		return nil, fmt.Errorf("failed to compile auto-generated disable case for %s expression at %s; is %q a valid path? (%w)", OrDisabledTag, strings.Join(path, " -> "), disabledPath, err)
 	}
